@@ -21,6 +21,20 @@ var lockBlockExceptions = map[string]string{
 	"grpcmux.GRPCClientMuxer.acceptMutex|send grpcmux.blockedClientListener.waitCh": "unblock() puts one token into a capacity-1 channel whose consumer is the gRPC accept loop (R-SLOT checks the capacity)",
 }
 
+// peerIO: library calls that wait for the other process.
+var peerIO = map[string]bool{
+	"encoding/binary.Read": true, "io.ReadFull": true, "io.ReadAll": true,
+	"net.Dial": true, "net.DialTimeout": true, "net.Dialer.Dial": true, "net.Dialer.DialContext": true,
+	"net.Listener.Accept":                                                              true,
+	"github.com/hashicorp/yamux.Session.Open":                                          true,
+	"github.com/hashicorp/yamux.Session.OpenStream":                                    true,
+	"github.com/hashicorp/yamux.Session.Accept":                                        true,
+	"github.com/hashicorp/yamux.Session.AcceptStream":                                  true,
+	"net/rpc.Client.Call":                                                              true,
+	"google.golang.org/grpc.ClientConn.Invoke":                                         true,
+	"github.com/hashicorp/go-plugin/internal/plugin.GRPCBroker_StartStreamClient.Recv": true,
+}
+
 func ruleLockBlock(c *Ctx) {
 	p := c.P
 	ci := p.Calls()
@@ -58,7 +72,17 @@ func ruleLockBlock(c *Ctx) {
 				}
 			}
 		}
-		_ = g
+		// network I/O that waits for the peer: a read of the acknowledgement, the
+		// opening or accepting of a stream or connection
+		for _, call := range f.Calls() {
+			nm := p.CalleeName(f, call)
+			if !peerIO[nm] {
+				continue
+			}
+			if n := g.NodeOf(call); n != nil {
+				cands = append(cands, cand{n, "call " + shortName(nm) + " [IO]", p.Pos(call), "io " + shortName(nm), "IO"})
+			}
+		}
 		for _, cd := range cands {
 			held := li.may[cd.node].clone()
 			for v := range entry {
@@ -83,6 +107,10 @@ func ruleLockBlock(c *Ctx) {
 				designated := !li.may[cd.node][v] || serialHolders[v][f]
 				if reason, ok := serial[v]; ok && designated && (cd.class == "B" || cd.class == "C") {
 					c.R.Except("R-LOCKBLOCK", cd.site, f.Name, construct, "bounded wait under a serialisation lock: "+reason)
+					continue
+				}
+				if reason, ok := serial[v]; ok && designated && cd.class == "IO" {
+					c.R.Except("R-LOCKBLOCK", cd.site, f.Name, construct, "connecting is what the serialisation lock serialises: "+reason)
 					continue
 				}
 				c.R.Violate("R-LOCKBLOCK", cd.site, f.Name, construct,
@@ -183,6 +211,12 @@ var reviewedBare = map[string]string{
 	"copyChan|send local:chan<- []byte":                "deliberate back-pressure of synced stdio (C11): the chunk hand-off must stay a blocking send",
 }
 
+// reviewedBareSites: entries of reviewedBare that cover more than one site.
+var reviewedBareSites = map[string]int{
+	"Client.Start|range local:chan string":                                            0, // the reviewed drain runs in a goroutine; Start itself never ranges over the line channel
+	"grpcmux.GRPCServerMuxer.acceptSession|send grpcmux.GRPCServerMuxer.sessionErrCh": 2, // the error and the success report of the same rendezvous
+}
+
 func ruleBound(c *Ctx) { ruleBoundScoped(c, nil) }
 
 func ruleBoundScoped(c *Ctx, only func(*Func) bool) {
@@ -235,6 +269,30 @@ func ruleBoundScoped(c *Ctx, only func(*Func) bool) {
 		}
 	}
 	// 2. every bare wait is reviewed
+	reviewedBareSeen := map[string]int{}
+	goLits := map[*Func]bool{}
+	{
+		ci := p.Calls()
+		for _, sites := range ci.sites {
+			for _, cs := range sites {
+				if cs.Kind == "go" {
+					for _, ce := range cs.Callees {
+						if ce != nil && ce.Lit != nil {
+							goLits[ce] = true
+						}
+					}
+				}
+			}
+		}
+	}
+	inGoroutine := func(f *Func) bool {
+		for x := f; x != nil; x = x.Parent {
+			if goLits[x] {
+				return true
+			}
+		}
+		return false
+	}
 	for _, f := range p.Funcs {
 		if only != nil && !only(f) {
 			continue
@@ -293,6 +351,26 @@ func ruleBoundScoped(c *Ctx, only func(*Func) bool) {
 					}
 				}
 				if reason, ok := reviewedBare[key]; ok {
+					// a reviewed entry is an argument about the sites that existed when
+					// it was written: one more bare wait of the same description in the
+					// same function is a new site, not a reviewed one
+					// a wait inside a goroutine body cannot hold up the function that
+					// started it: further drains of the same kind in goroutines are not
+					// counted; a wait in the function's own (synchronous) code is
+					if inGoroutine(f) {
+						c.R.Except("R-BOUND/site", p.Pos(op.Ast), f.Name, op.Desc, reason)
+						continue
+					}
+					reviewedBareSeen[key]++
+					allowed, tabled := reviewedBareSites[key]
+					if !tabled {
+						allowed = 1
+					}
+					if reviewedBareSeen[key] > allowed {
+						c.R.Violate("R-BOUND/site", p.Pos(op.Ast), f.Name, op.Desc+" (additional site)",
+							fmt.Sprintf("the function has more bare waits of this kind than the %d that were reviewed: the additional one has no default, timer or cancellation arm and nobody argued that it ends", allowed), nil)
+						continue
+					}
 					c.R.Except("R-BOUND/site", p.Pos(op.Ast), f.Name, op.Desc, reason)
 				} else if k, n := p.bufferedLocalSend(f, op.Ast); n > 0 && int64(n) <= k {
 					c.R.Hold("R-BOUND/site", p.Pos(op.Ast), f.Name, op.Desc, fmt.Sprintf("send on a local channel made with capacity %d that has %d send site(s), none repeated by a loop the channel is not created in: the buffer holds every send", k, n), false)
@@ -589,4 +667,60 @@ func (p *Prog) bufferedLocalSend(f *Func, op ast.Node) (k int64, n int) {
 		}
 	}
 	return int64(kk), len(sends)
+}
+
+// ---------- R-BOUND/closepath: the shutdown request made by Kill waits only on timers ----------
+
+// ruleClosePathBounded: Client.Kill asks the plugin to exit by calling Close on
+// the protocol client and only afterwards arms its grace timer and, if that
+// elapses, kills the process. A wait inside Close that ends on the exit
+// context (the plugin going away) or on an event the plugin controls is
+// circular there: a plugin that does not go away keeps Kill in Close for
+// ever, and the forced kill is never reached. Every channel wait in the two
+// Close implementations (and in private module functions they call
+// synchronously, two levels deep) therefore has a timer arm or a default arm.
+func ruleClosePathBounded(c *Ctx) {
+	p := c.P
+	ci := p.Calls()
+	n := 0
+	for _, name := range []string{"GRPCClient.Close", "RPCClient.Close"} {
+		root := p.Fn(name)
+		if root == nil {
+			c.R.Undecided("R-BOUND/closepath", name, "anchor", "function not found")
+			continue
+		}
+		seen := map[*Func]bool{}
+		var visit func(f *Func, depth int)
+		visit = func(f *Func, depth int) {
+			if f == nil || seen[f] || depth > 2 {
+				return
+			}
+			seen[f] = true
+			for _, op := range p.BlockOps(f) {
+				n++
+				switch op.Class {
+				case "A", "B":
+					c.R.Hold("R-BOUND/closepath", p.Pos(op.Ast), f.Name, op.Desc, "default or timer arm", false)
+				default:
+					if op.Kind == "wait" || op.Kind == "sleep" {
+						continue
+					}
+					c.R.Violate("R-BOUND/closepath", p.Pos(op.Ast), f.Name, op.Desc,
+						"a wait without timer arm inside the protocol client's Close (class "+op.Class+"): Client.Kill calls Close before it arms the grace timer, so a plugin that neither answers nor exits keeps Kill here and is never killed", nil)
+				}
+			}
+			for _, cs := range ci.sites[f] {
+				if cs.Kind != "call" || cs.IsIface || cs.Dynamic {
+					continue
+				}
+				for _, ce := range cs.Callees {
+					if ce != nil && ce.Obj != nil && !ce.Obj.Exported() && ce.Lit == nil {
+						visit(ce, depth+1)
+					}
+				}
+			}
+		}
+		visit(root, 0)
+		c.R.Hold("R-BOUND/closepath", p.Pos(root.Node()), root.Name, "channel waits of the close path", fmt.Sprintf("%d channel waits examined so far, all with a timer or default arm", n), true)
+	}
 }
